@@ -1,6 +1,6 @@
 """Shared driver for the Solver-based checks (C10, C04): scripts for harness/solver_drive, trace validation by
 spec/SolverTrace.tla, exact-flow comparison with spec/SolverFlow.tla."""
-import json, os, random, subprocess
+import sys, json, os, random, subprocess
 import vlib
 from vlib import Infra
 
@@ -589,3 +589,35 @@ def seq_replay(exe, edges, jobs=14, timeout=600):
                         for what, text in judge(hs[idx[k]], split(l1)[0]):
                             viol.append(("lifetime/" + what, text, hs[idx[k]]["hist"]))
     return viol, len(hs), nev
+
+
+def long_evolve(v, exe):
+    """one Evolve needing more than 10^7 accepted steps against the same interval cut into 26 segments"""
+    import concurrent.futures as _cf, json
+    from vlib import Infra
+    solver = sys.modules[__name__]
+    # ---- one long Evolve (more than 10^7 accepted steps) against the same interval in 26 segments: neither may fail, clocks and
+    #      states agree (the property quantifies over all dt >= 0; a cap on the steps of one call would make the result depend on
+    #      how the interval is cut)
+    base = ["QUIET 1", "NEW 1 1 2 1 0 0", "STEPPER 1 rk2 1 400", "TOL 1 1e-9 1e-9", "SW 1 1 1"]
+    longs = [base + ["EVOLVE 1 52000", "DUMP 1 L", "DESTROY 1"], base + ["EVOLVE 1 2000"] * 26 + ["DUMP 1 L", "DESTROY 1"]]
+    with _cf.ThreadPoolExecutor(max_workers=2) as ex_:
+        lres = list(ex_.map(lambda c_: solver.run_script(exe, c_, timeout=900), longs))
+    ldump = []
+    for (rc_, lines_, err_), what_ in zip(lres, ("one call", "26 segments")):
+        if solver.died(rc_):
+            solver.crash_violation(v, "long-evolve", rc_, longs[0][:6], err_)
+        elif rc_ != 0:
+            raise Infra("long Evolve run failed: rc=%s %s" % (rc_, err_[-300:]))
+        ends_ = [json.loads(l) for l in lines_ if l.startswith('{"e":"EvolveEnd"')]
+        if any(e_["threw"] for e_ in ends_):
+            v.violation("long-evolve/refused", "Evolve over 13000 time units (%s; rk2, tolerance 1e-9, about 1.3e7 steps in all) reported a GSL failure after %d right-hand sides" % (
+                what_, sum(e_["nrhs"] for e_ in ends_)), {"script": longs[0][:6]})
+        ldump.append(solver.parse_dumps(lines_))
+    if len(ldump) == 2 and ldump[0] and ldump[1] and not any(str(x[0]).startswith("long-evolve") for x in v.violations):
+        (_, t1_, v1_), (_, t2_, v2_) = ldump[0][0], ldump[1][0]
+        if abs(t1_ - t2_) > 1e-6 or abs(t1_ - 13000.0) > 1e-6:
+            v.violation("long-evolve/clock", "Get_t after one Evolve(13000) = %r, after 26 x Evolve(500) = %r" % (t1_, t2_), None)
+        elif max(abs(a_ - b_) for a_, b_ in zip(v1_, v2_)) > 1e-3:
+            v.violation("long-evolve/state", "state after one Evolve(13000) differs from 26 x Evolve(500) by %.3g" % max(abs(a_ - b_) for a_, b_ in zip(v1_, v2_)), None)
+    v.cov["long_evolve"] = "one Evolve over 13000 units (rk2, 1e-9: ~1.3e7 steps) vs 26 segments"
